@@ -164,7 +164,7 @@ EmitModel ==
 \* Part B: object consistency
 \* =========================================================================================
 Levels == IF Size = 0 THEN {Q(2, 1)} ELSE IF Size = 1 THEN {Q(1, 2), Q(2, 1)} ELSE {Q(1, 2), Q(2, 1), Q(1, 10)}
-ZPats  == IF Size = 0 THEN {"alt"} ELSE {"zero", "e1", "ed", "ones", "alt"}
+ZPats  == IF Size = 0 THEN {"alt"} ELSE IF Size = 1 THEN {"zero", "ed", "alt"} ELSE {"zero", "e1", "ed", "ones", "alt"}
 BCs1   == {"zero", "periodic", "mirror", "reflect", "nearest"}
 BCs2   == {"zero", "periodic", "mirror", "neumann", "nearest"}
 
